@@ -17,30 +17,51 @@ fn std_dir() -> PathBuf {
 pub fn expand() -> Result<(), PathError> {
     let std_dir = std_dir();
 
-    #[cfg(all(feature = "verif", not(target_family = "wasm")))]
-    veryl_path::sim::point("std.exists", &std_dir)?;
-    if !std_dir.exists() {
-        #[cfg(all(feature = "verif", not(target_family = "wasm")))]
-        veryl_path::sim::point("std.mkdir", &std_dir)?;
-        ignore_already_exists(fs::create_dir_all(&std_dir))?;
+    if std_dir.exists() {
+        return Ok(());
+    }
 
-        let lock = veryl_path::lock_dir(&std_dir)?;
+    // Expand into a private sibling directory and publish it with a single
+    // rename: a process that finds `std_dir` may then rely on it being
+    // complete. Checking for the directory first and filling it in place
+    // afterwards let a concurrent build (or any build after a crash) use a
+    // partially written standard library.
+    static SERIAL: std::sync::atomic::AtomicUsize = std::sync::atomic::AtomicUsize::new(0);
+    let parent = std_dir.parent().unwrap();
+    ignore_already_exists(fs::create_dir_all(parent))?;
+    let staging = parent.join(format!(
+        ".{}.{}.{}.tmp",
+        STD_HASH,
+        std::process::id(),
+        SERIAL.fetch_add(1, std::sync::atomic::Ordering::Relaxed)
+    ));
+    let _ = fs::remove_dir_all(&staging);
 
+    let written = (|| -> Result<(), PathError> {
         for file in Asset::iter() {
             let content = Asset::get(file.as_ref()).unwrap();
-            let path = std_dir.join(file.as_ref());
+            let path = staging.join(file.as_ref());
 
             let parent = path.parent().unwrap();
             if !parent.exists() {
                 fs::create_dir_all(parent)?;
             }
 
-            #[cfg(all(feature = "verif", not(target_family = "wasm")))]
-            veryl_path::sim::write_point("std", &path, content.data.as_ref())?;
             fs::write(&path, content.data.as_ref())?;
         }
+        Ok(())
+    })();
+    if let Err(x) = written {
+        let _ = fs::remove_dir_all(&staging);
+        return Err(x);
+    }
 
-        veryl_path::unlock_dir(lock)?;
+    if let Err(x) = fs::rename(&staging, &std_dir) {
+        let _ = fs::remove_dir_all(&staging);
+        // Another process published the same (content-addressed) library first.
+        if !std_dir.exists() {
+            return Err(x.into());
+        }
     }
 
     Ok(())
